@@ -55,6 +55,22 @@ def fromSem (db : Db) : From → List Value → List (List Value)
         ++ (if wantsLeft k then leftPart on ctx (r.width db) L R else [])
         ++ (if wantsRight k then rightPart on ctx (l.width db) L R else [])
 
+/-- the FROM clause contains a LEFT / RIGHT / FULL OUTER JOIN: evaluated incrementally, such a join has to take back
+    a NULL-padded row when a partner shows up later, so its result (and everything computed from it) is a changelog
+    with retractions, whatever the order in which the inputs are read -/
+def From.mayRetract : From → Bool
+  | .tbl _ => false
+  | .sub s _ => s.mayRetract
+  | .proj s _ => s.mayRetract
+  | .join k l r _ => wantsLeft k || wantsRight k || l.mayRetract || r.mayRetract
+
+/-- the joins of a FROM clause in pre-order, each with "its result can contain retractions" -/
+def From.joins : From → List (JKind × Bool)
+  | .tbl _ => []
+  | .sub s _ => s.joins
+  | .proj s _ => s.joins
+  | .join k l r on => (k, (From.join k l r on).mayRetract) :: (l.joins ++ r.joins)
+
 /-- the SQL result of a join query (as a bag: the order of a join's result is unspecified) -/
 def joinSem (q : JQuery) (db : Db) : List (List Value) :=
   specMap q.proj (specFilter q.whr (fromSem db q.frm []))
